@@ -47,12 +47,12 @@ theorem hspec_goaway (last code : Int) (extra : Bytes) (c : Conn) (hwf : WF c) :
   wps
   unfold wp connInput
   cases h : connTable c.cstate .RECV_GOAWAY with
-  | none => exact CE_plain plain_pErr ⟨hwf.1.ls, hwf.1.rs, hwf.1.mof, hwf.1.dec⟩
+  | none => exact CE_plain plain_pErr ⟨hwf.1.ls, hwf.1.rs, hwf.1.mof, hwf.1.dec, hwf.1.ls32⟩
   | some t =>
     have ht : t = .CLOSED := by
       revert h; cases c.cstate <;> simp [connTable] <;> (intro h; exact h.symm)
     subst ht
-    exact ⟨⟨⟨hwf.1.ls, hwf.1.rs, hwf.1.mof, hwf.1.dec⟩, fun hc => absurd rfl hc⟩, framesOk_nil⟩
+    exact ⟨⟨⟨hwf.1.ls, hwf.1.rs, hwf.1.mof, hwf.1.dec, hwf.1.ls32⟩, fun hc => absurd rfl hc⟩, framesOk_nil⟩
 
 
 /-! ### what the stream methods return -/
@@ -114,7 +114,7 @@ theorem res_receiveWindowUpdate (incr : Int) (st : Stream) :
 theorem framesOk_of_noFrames {fe : FE} (h : NoFrames fe) : FramesOk fe.1 := by rw [h]; exact framesOk_nil
 
 theorem live_out {c : Conn} (h : Live c) (w : Int) : Live { c with outWin := w } :=
-  ⟨⟨h.1.ls, h.1.rs, h.1.mof, h.1.dec⟩, h.2.1, h.2.2⟩
+  ⟨⟨h.1.ls, h.1.rs, h.1.mof, h.1.dec, h.1.ls32⟩, h.2.1, h.2.2⟩
 
 theorem hspec_windowUpdate (sid incr : Int) (c : Conn) (hwf : WF c) :
     wp (receiveWindowUpdateFrame sid incr) HQ CE c := by
@@ -258,9 +258,9 @@ theorem hspec_nakedContinuation (sid : Int) (c : Conn) (hwf : WF c) :
 
 
 theorem live_inWM {c : Conn} (h : Live c) (w : WindowManager) : Live { c with inWM := w } :=
-  ⟨⟨h.1.ls, h.1.rs, h.1.mof, h.1.dec⟩, h.2.1, h.2.2⟩
+  ⟨⟨h.1.ls, h.1.rs, h.1.mof, h.1.dec, h.1.ls32⟩, h.2.1, h.2.2⟩
 theorem wf_inWM {c : Conn} (h : WF c) (w : WindowManager) : WF { c with inWM := w } :=
-  ⟨⟨h.1.ls, h.1.rs, h.1.mof, h.1.dec⟩, h.2⟩
+  ⟨⟨h.1.ls, h.1.rs, h.1.mof, h.1.dec, h.1.ls32⟩, h.2⟩
 
 /-- a WindowManager call on the connection window whose only failure is FlowControlError -/
 theorem wp_onConnWM_live {Q : Option Int → Conn → Prop} {E : Exc → Conn → Prop} (f : WindowManager → WRes) (c : Conn)
